@@ -3,14 +3,14 @@ package main
 // C16: package-level declarations of one evaluation may be written in any order.
 //
 // op   := "eval" NP perm^NP "|" item*           perm = comma separated item indices
-// item := "C" k E | "G" n k^n E | "V" k (0 | 1 t) E | "T" k (0 | 1 u) | "S" k n t^n
+// item := "C" k E | "G" n k^n (0 | 1 t | 2 t) E | "V" k (0 | 1 t) E | "T" k (0 | 1 u) | "S" k n t^n
 //       | "F" k np p^np E | "M" t r k np p^np E
 // E    := "l" int | "r" k | "io" | "+" E E | "*" E E | "a" k n E^n | "m" k j n E^n | "c" t E
 //       | "let" k E E | "if" E E E | "fn" E
 //
 // Rendering (identifier k = "x<k>"): r k = int(xk); io = int(iota); c t e = int(xt(e));
 // let k a b = func() int { xk := a; _ = xk; return b }(); if c a b = func() int { if c > 0 { return a }; return b }();
-// fn e = func() int { return e }(); V k 1 t e = var xk xt = xt(e); M t r k.. = func (xr xt) xk(..) int { return e }.
+// fn e = func() int { return e }(); V k 1 t e = var xk xt = xt(e); G .. 1 t e = const ( xk0 xt = xt(e); xk1; ... ); G .. 2 t e = const ( xk0 xt = e; xk1; ... ) with e untyped: only l, io (= bare iota), +, *; M t r k.. = func (xr xt) xk(..) int { return e }.
 // Every expression has type int, so every generated set is valid Go unless a cycle is planted.
 //
 // For every permutation the items are written in that order into ONE source text and evaluated by a
@@ -154,8 +154,18 @@ func c16parse(op string) (perms [][]int, items []c16item, ok bool) {
 				p.bad = true
 				break
 			}
-			e := p.expr()
-			items = append(items, c16item{"const ( " + xs[0] + " = " + e + "; " + strings.Join(xs[1:], "; ") + " )", xs, 'G', xs[0]})
+			first := xs[0] + " = "
+			switch p.num() {
+			case 1:
+				t := p.id()
+				first = xs[0] + " " + t + " = " + t + "(" + p.expr() + ")"
+			case 2: // the expression does not mention the type: only the declared type ties the constants to it
+				t := p.id()
+				first = xs[0] + " " + t + " = " + strings.ReplaceAll(p.expr(), "int(iota)", "iota")
+			default:
+				first += p.expr()
+			}
+			items = append(items, c16item{"const ( " + first + "; " + strings.Join(xs[1:], "; ") + " )", xs, 'G', xs[0]})
 		case "V":
 			x := p.id()
 			if p.num() == 1 {
@@ -552,12 +562,33 @@ type c16pool struct {
 func (g *c16g) set(maxn int) string {
 	r := g.r
 	n := 2 + r.Intn(maxn-1)
-	names := r.Perm(n + 6)
+	names := r.Perm(n + 10)
 	pool := &c16pool{}
 	var items []string
 	next := 0
-	fresh := func() int { x := names[next]; next++; return x }
+	fresh := func() int {
+		next++
+		if next > len(names) {
+			return 40 + next // never reached by the permutation: still a fresh name
+		}
+		return names[next-1]
+	}
 	plant := r.Intn(9) // 0: variable cycle, 1: mutually recursive functions, 2: struct type cycle
+	if r.Intn(3) == 0 {
+		// a named integer type and a typed iota group whose expression does not mention the type:
+		// `type T int; const ( A T = (iota + a) * b; B; C )` -- B and C depend on T only through implicit repetition
+		t := fresh()
+		items = append(items, c17j("T", t, 0))
+		pool.types = append(pool.types, t)
+		m := 2 + r.Intn(2)
+		var xs []string
+		for i := 0; i < m; i++ {
+			x := fresh()
+			pool.consts = append(pool.consts, x)
+			xs = append(xs, fmt.Sprint(x))
+		}
+		items = append(items, c17j("G", m, strings.Join(xs, " "), 2, t, "* + io l", r.Intn(3), "l", 1+r.Intn(3)))
+	}
 	for len(items) < n && next < len(names)-3 {
 		k := r.Intn(13)
 		if len(items) == 0 && r.Intn(2) == 0 {
@@ -581,7 +612,17 @@ func (g *c16g) set(maxn int) string {
 			if r.Intn(2) == 0 {
 				e = c17j("*", c17j("+", "io", c17j("l", 1)), g.expr(1, pool, nil, true))
 			}
-			items = append(items, c17j("G", m, strings.Join(xs, " "), e))
+			ty := "0"
+			if len(pool.types) > 0 && r.Intn(3) != 0 { // typed group: the later constants inherit the type too
+				t := pool.types[r.Intn(len(pool.types))]
+				if r.Intn(2) == 0 {
+					ty = c17j(1, t)
+				} else { // untyped expression over iota and literals only: `A T = (iota + 1) * 2; B; C`
+					ty = c17j(2, t)
+					e = c17j("*", c17j("+", "io", c17j("l", r.Intn(3))), c17j("l", 1+r.Intn(3)))
+				}
+			}
+			items = append(items, c17j("G", m, strings.Join(xs, " "), ty, e))
 			pool.consts = append(pool.consts, ids...)
 		case k < 6:
 			x := fresh()
@@ -712,7 +753,7 @@ func c16generate(r *rand.Rand, tier string, emit func(string)) {
 func init() {
 	register(&Prop{
 		ID: "C16",
-		Rule: "random valid declaration sets (2-11 declarations: constants, iota groups, variables, variables of named integer types, named and struct types, functions with parameters, recursive functions, methods; " +
+		Rule: "random valid declaration sets (2-11 declarations: constants, iota groups (typed or untyped first spec, the others by implicit repetition), variables, variables of named integer types, named and struct types, functions with parameters, recursive functions, methods; " +
 			"initialisers and bodies referring to earlier-generated names through calls, method calls, conversions, closures, conditionals, local bindings and parameters that shadow package-level names), " +
 			"with probability 1/9 each a planted initialization cycle, a pair of mutually recursive functions, a pair of mutually recursive struct types; every set is evaluated in 3 textual orders " +
 			"(generation order, reverse, 1 random) by a fresh fast interpreter in ONE Eval and compared with the compiled program. Non-trivial: every op.",
